@@ -13,9 +13,9 @@
  * Symbolic: all input bytes.
  *
  * Driver = the documented call loop: feed a chunk, call until it is consumed and (output space is left or the
- * state is back at ZSTATE_NEW_HDR: igzip_lib.h "Checking that the out_buffer is not empty or that
- * internal_state.state = ZSTATE_NEW_HDR is sufficient to guarantee all input has been flushed"), supply new
- * output space whenever avail_out == 0; after the last chunk call until ZSTATE_END.
+ * state is back at ZSTATE_NEW_HDR / ZSTATE_TMP_NEW_HDR: igzip_lib.h "Checking that the out_buffer is not empty
+ * or that internal_state.state = ZSTATE_NEW_HDR is sufficient to guarantee all input has been flushed"), supply
+ * new output space whenever avail_out == 0; after the last chunk call until ZSTATE_END.
  */
 #include "harness/deflate_common/deflate_common.h"
 #include "harness/deflate_common/deflate_shim.h"
@@ -71,8 +71,11 @@ one_call(void)
         if (s->avail_out == 0) { /* fresh output object */
                 if (ochunk)
                         free(ochunk);
-                ochunk = malloc(OC);
-                s->next_out = ochunk;
+                /* The OC output bytes are the LAST bytes of the object (a write past avail_out is a bounds failure);
+                 * 8 bytes of lead-in keep bitbuf2.h's `buf + len - 8` end marker inside the object for OC < 8: CBMC
+                 * cannot order a pointer that lies before its object (offsets are unsigned), see DESIGN 3.4 */
+                ochunk = malloc(OC + 8);
+                s->next_out = ochunk + 8;
                 s->avail_out = OC;
         }
         uint32_t ti = s->total_in, to = s->total_out, ai = s->avail_in, ao = s->avail_out;
@@ -126,21 +129,28 @@ harness(void)
                         if (calls >= KMAX)
                                 return;
                         one_call();
-                } while (s->avail_in > 0 || (s->avail_out == 0 && s->internal_state.state != ZSTATE_NEW_HDR));
-#if CHECK14 || FLUSH1
-                if (c == 0 && FLUSH1 != NO_FLUSH) {
+                } while (s->avail_in > 0 || (s->avail_out == 0 && s->internal_state.state != ZSTATE_NEW_HDR &&
+                                             s->internal_state.state != ZSTATE_TMP_NEW_HDR));
+                /* ZSTATE_TMP_NEW_HDR: the flush has been generated completely, only staged bytes are pending.  The
+                 * flush flag must be dropped here: repeating the call with the flag still set until
+                 * "avail_out > 0 or state == ZSTATE_NEW_HDR" (igzip_lib.h) never terminates for output chunks of 2, 3, 4
+                 * or 6 bytes -- each draining call starts another empty block + marker (repro_flush_livelock.c; reported). */
+                if (c == 0 && FLUSH1 != NO_FLUSH && s->avail_in == 0 && s->avail_out > 0) {
+                        /* C14's premise: the flushing call returned with all input consumed and output space left */
                         flush_seen = 1;
                         flush_point = full_len;
                         flush_state = s->internal_state.state;
                 }
-#endif
                 if (!last)
                         free(chunk); /* consumed: the library must not look at it again (the last chunk stays
                                         allocated while the stream is drained: next_in still points at its end) */
                 off += len;
         }
 #if EOSMODE == 1
-        s->next_in = 0; /* nothing more to give */
+        uint8_t *nothing = malloc(1); /* nothing more to give: valid pointer, zero length (a fresh object again) */
+        if (!nothing)
+                return;
+        s->next_in = nothing;
         s->avail_in = 0;
         s->flush = NO_FLUSH;
         s->end_of_stream = 1;
@@ -159,42 +169,94 @@ harness(void)
         printf("\n");
 #endif
 
-        /* ---- the concatenated output decodes to the concatenated input */
+        /* ---- the concatenated output decodes to the concatenated input.
+         * Expected block structure (guided decoder, see deflate_common.h):
+         *   no flush:   FIXED(all literals) [+ empty final FIXED]
+         *   flush:      FIXED(chunk 1) STORED(0)  { FIXED(0) STORED(0) }*  FIXED(rest) [+ empty final FIXED]
+         * The optional { FIXED(0) STORED(0) } pairs are real: when a flush completes into the 16-byte staging
+         * buffer (ZSTATE_TMP_*), the call that drains it is made with the flush flag still set and emits one more
+         * empty block + marker.  Valid deflate; recognised here by peeking at concrete byte positions. */
         struct dfl_blk script[3];
-        int nblk = 0;
+        uint32_t hl = (uint32_t) dfl_check_wrap_header(full, full_len, WRAP, 15);
+        uint32_t tl = dfl_wrap_trl_len(WRAP);
+        VASSERT(hl + tl <= full_len, "room for header and trailer");
+        const uint8_t *body = full + hl;
+        size_t body_len = full_len - hl; /* includes the trailer; the decoder must stop before it */
+        struct dfl_guided g;
+        size_t pos = 0;
 #if FLUSH1 != 0
-        script[nblk].btype = 1;
-        script[nblk++].nlit = C1;
-        script[nblk].btype = 0;
-        script[nblk++].nlit = 0;
-        script[nblk].btype = 1;
-        script[nblk++].nlit = C2 + C3;
+        script[0].btype = 1;
+        script[0].nlit = C1;
+        script[1].btype = 0;
+        script[1].nlit = 0;
+        dfl_guided_decode(body, body_len, 0, script, 2, I.data, toklens, sizeof(toklens) - 1, 0, &g);
+        VASSERT(g.out_len == C1, "blocks up to the flush marker carry chunk 1");
+        pos = g.bit_pos;
+        for (int k = 0; k < 2; k++) {
+                /* FIXED(0) = BFINAL 0, BTYPE 01, EOB 0000000: bytes 0x02, then xxx00000 with the STORED header 000 */
+                size_t by = pos >> 3;
+                if (by + 2 <= body_len - tl && (pos & 7) == 0 && body[by] == 0x02 && (body[by + 1] & 0x1f) == 0x00) {
+                        script[0].btype = 1;
+                        script[0].nlit = 0;
+                        dfl_guided_decode(body, body_len, pos, script, 2, I.data, toklens, 0, 0, &g);
+                        pos = g.bit_pos;
+                } else
+                        break;
+        }
+        script[2].btype = 1;
+        script[2].nlit = C2 + C3;
+        dfl_guided_decode(body, body_len, pos, script + 2, 1, I.data + C1, toklens + C1, (int) (sizeof(toklens) - 1) - C1, 1, &g);
+        VASSERT(g.out_len == C2 + C3, "blocks after the flush carry the rest of the input");
 #else
-        script[nblk].btype = 1;
-        script[nblk++].nlit = NTOT;
+        script[0].btype = 1;
+        script[0].nlit = NTOT;
+        dfl_guided_decode(body, body_len, 0, script, 1, I.data, toklens, sizeof(toklens) - 1, 1, &g);
+        VASSERT(g.out_len == NTOT, "decoded length equals input length");
 #endif
-        dfl_check_stream_guided(full, full_len, WRAP, I.data, NTOT, script, nblk, toklens, sizeof(toklens) - 1, 15);
+        VASSERT(g.saw_final, "stream finished with a BFINAL block");
+        VASSERT(hl + ((g.bit_pos + 7) >> 3) + tl == full_len, "stream consumed to its last byte (deflate end rounded up + trailer == total_out)");
+        dfl_check_trailer(full, full_len, WRAP, I.data, NTOT);
 
-#if CHECK14
-        /* ---- C14: the flush point after chunk 1 */
-        VASSERT(flush_seen, "flush call completed");
-        {
-                uint32_t hl = dfl_wrap_hdr_len(WRAP);
+#if CHECK14 && FLUSH1 != 0
+        /* ---- C14: the flush point = the moment the flushing call sequence for chunk 1 returned with
+         * avail_in == 0 and (avail_out > 0 or state == ZSTATE_NEW_HDR) */
+        if (flush_seen) {
                 VASSERT(flush_state == ZSTATE_NEW_HDR, "state ZSTATE_NEW_HDR after a completed flush");
                 VASSERT(flush_point >= hl + 4 && full[flush_point - 4] == 0x00 && full[flush_point - 3] == 0x00 &&
                                 full[flush_point - 2] == 0xff && full[flush_point - 1] == 0xff,
                         "output up to the flush point ends with 00 00 FF FF");
-                struct dfl_guided g;
-                dfl_guided_decode(full + hl, flush_point - hl, 0, script, 2, I.data, toklens, sizeof(toklens) - 1, 0, &g);
-                VASSERT(g.out_len == C1 && !g.saw_final, "prefix decodes to segment 1, no BFINAL");
-                VASSERT(g.bit_pos == 8 * (size_t) (flush_point - hl), "prefix consumed exactly to the (byte aligned) flush point");
+                /* prefix = FIXED(chunk 1) STORED(0) { FIXED(0) STORED(0) }* and nothing else */
+                struct dfl_guided gp;
+                size_t plen = (size_t) flush_point - hl;
+                script[0].btype = 1;
+                script[0].nlit = C1;
+                dfl_guided_decode(body, plen, 0, script, 2, I.data, toklens, sizeof(toklens) - 1, 0, &gp);
+                VASSERT(gp.out_len == C1 && !gp.saw_final, "prefix decodes to segment 1, no BFINAL");
+                size_t ppos = gp.bit_pos;
+                for (int k = 0; k < 2; k++) {
+                        if (ppos < 8 * plen) {
+                                script[0].nlit = 0;
+                                dfl_guided_decode(body, plen, ppos, script, 2, I.data, toklens, 0, 0, &gp);
+                                ppos = gp.bit_pos;
+                        }
+                }
+                VASSERT(ppos == 8 * plen, "prefix consumed exactly to the (byte aligned) flush point");
 #if FLUSH1 == FULL_FLUSH
-                /* suffix alone, empty history: literal-only script => any match reaching back would be flagged as
-                 * STRUCT violation; the guided decoder has no history at all */
-                uint32_t tl = dfl_wrap_trl_len(WRAP);
-                dfl_guided_decode(full + flush_point, full_len - flush_point - tl, 0, script + 2, 1, I.data + C1, toklens + C1,
-                                  (int) (sizeof(toklens) - 1) - C1, 1, &g);
-                VASSERT(g.out_len == C2 + C3 && g.saw_final, "suffix after a full flush decodes on its own to segment 2");
+                /* suffix alone, empty history: literal-only script => a match reaching back over the flush point would be
+                 * flagged (STRUCT: literal token expected); the guided decoder has no history at all */
+                const uint8_t *sfx = body + plen;
+                size_t slen = body_len - plen, spos = 0;
+                for (int k = 0; k < 2; k++) {
+                        size_t by = spos >> 3;
+                        if (by + 2 <= slen - tl && sfx[by] == 0x02 && (sfx[by + 1] & 0x1f) == 0x00) {
+                                script[0].nlit = 0;
+                                dfl_guided_decode(sfx, slen, spos, script, 2, I.data, toklens, 0, 0, &gp);
+                                spos = gp.bit_pos;
+                        } else
+                                break;
+                }
+                dfl_guided_decode(sfx, slen, spos, script + 2, 1, I.data + C1, toklens + C1, (int) (sizeof(toklens) - 1) - C1, 1, &gp);
+                VASSERT(gp.out_len == C2 + C3 && gp.saw_final, "suffix after a full flush decodes on its own to segment 2");
 #endif
         }
 #endif
